@@ -9,7 +9,10 @@ Open Scope N_scope.
 Lemma slice_mid (pre body post : list N) :
   slice (pre ++ body ++ post) (lenN pre) (lenN body) = body.
 Proof.
-  unfold slice, lenN. rewrite !Nat2N.id. rewrite skipn_app_exact by reflexivity.
+  unfold slice.
+  replace (N.min (lenN pre) (lenN (pre ++ body ++ post))) with (lenN pre) by (unfold lenN; rewrite !app_length; lia).
+  replace (N.min (lenN body) (lenN (pre ++ body ++ post))) with (lenN body) by (unfold lenN; rewrite !app_length; lia).
+  unfold lenN. rewrite !Nat2N.id. rewrite skipn_app_exact by reflexivity.
   apply firstn_app_exact. reflexivity.
 Qed.
 
